@@ -167,6 +167,10 @@ func c08Input(r *fw.Rand, codec string, mtu int) ([]byte, string) {
 	case "vp9":
 		h := c12Header(r, true)
 		hb, _ := h.Encode()
+		if r.Chance(1, 3) {
+			// a frame that ends inside (or right after) its uncompressed header
+			return append([]byte(nil), hb[:r.Intn(len(hb)+1)]...), "valid-header-cut"
+		}
 		return append(hb, r.Bytes(r.Range(0, maxLen))...), "valid"
 	}
 	return r.Bytes(r.Range(1, maxLen)), "random"
@@ -501,6 +505,9 @@ func c08Run(c *fw.Ctx, i int) {
 	}
 	for q := 0; q < n; q++ {
 		in, ik := c08Input(r, kind.codec, mtu)
+		if ik == "valid" && len(in) > 0 && r.Chance(1, 8) {
+			in, ik = in[:r.Intn(len(in)+1)], "valid-cut" // a well-formed stream that stops anywhere: inside a start code, a size field, a header
+		}
 		if len(in) > 200000 {
 			in = in[:200000]
 		}
